@@ -32,9 +32,9 @@ def removeAll : List Nat → List Nat → Option (List Nat)
   | hd, [] => some hd
   | hd, s :: ss => if hd.contains s then removeAll (hd.erase s) ss else none
 
-/-- `DecVar.evtadapt(events)` (scenario labels already mapped to indices; unknown labels are a
+/-- the body of `DecVar.evtadapt(events)` for a non-empty list (scenario labels already mapped to indices; unknown labels are a
 `KeyError` raised by the label lookup and are presented here as an index `≥ S`) -/
-def evtadapt (st : EvState) (ev : List Nat) : Except Err EvState :=
+def evtadaptCore (st : EvState) (ev : List Nat) : Except Err EvState :=
   match st.events with
   | [] => .error .indexError
   | hd :: tl =>
@@ -44,6 +44,24 @@ def evtadapt (st : EvState) (ev : List Nat) : Except Err EvState :=
     | some hd' =>
       if hd'.isEmpty then .ok { events := tl ++ [ev], rest := false }
       else .ok { events := (hd' :: tl) ++ [ev], rest := st.rest }
+
+/-- `DecVar.evtadapt(events)`: an empty list of scenarios is refused first (`ValueError`: an event must contain at least one
+scenario), then `evtadaptCore` -/
+def evtadapt (st : EvState) (ev : List Nat) : Except Err EvState :=
+  if ev.isEmpty then .error .valueError else evtadaptCore st ev
+
+theorem evtadapt_eq_core {st : EvState} {ev : List Nat} (h : ev ≠ []) : evtadapt st ev = evtadaptCore st ev := by
+  unfold evtadapt
+  cases ev with
+  | nil => exact absurd rfl h
+  | cons a l => rfl
+
+theorem evtadapt_ok_ne {st st' : EvState} {ev : List Nat} (h : evtadapt st ev = .ok st') :
+    ev ≠ [] ∧ evtadaptCore st ev = .ok st' := by
+  unfold evtadapt at h
+  cases ev with
+  | nil => simp at h
+  | cons a l => exact ⟨by simp, h⟩
 
 /-- `event_dict`: scenario ↦ index of its event (`none` if in no event) -/
 def eventOf (es : Events) (s : Nat) : Option Nat :=
